@@ -49,20 +49,22 @@ def expected_points(site, positions, ops, M, radius):
     pts = []
     nontrivial = False
     Minv = np.linalg.inv(M)
+    positions = np.asarray(positions, float)
     for R, t in ops:
         sym = R @ site + t
-        vec, dist, img = oracle.min_image_vectors([sym], positions, M, return_image=True)
-        d = dist[0]
-        if np.any(np.abs(d - radius) < 1e-9):
-            return None, False
-        sel = d < radius
-        if not sel.any():
-            continue
-        delta_f = vec[0][sel] @ Minv  # fractional minimum-image vectors
         Rinv = np.linalg.inv(R)
-        pts.extend((delta_f @ Rinv.T) @ M)
-        if np.any((sym < 0) | (sym >= 1)) or np.any(img[0][sel] != 0):
-            nontrivial = True
+        for lo in range(0, len(positions), 20000):  # (in blocks: the image enumeration of a quarter of a million positions at once would need gigabytes)
+            vec, dist, img = oracle.min_image_vectors([sym], positions[lo:lo + 20000], M, return_image=True)
+            d = dist[0]
+            if np.any(np.abs(d - radius) < 1e-9):
+                return None, False
+            sel = d < radius
+            if not sel.any():
+                continue
+            delta_f = vec[0][sel] @ Minv  # fractional minimum-image vectors
+            pts.extend((delta_f @ Rinv.T) @ M)
+            if np.any((sym < 0) | (sym >= 1)) or np.any(img[0][sel] != 0):
+                nontrivial = True
     return np.array(pts).reshape(-1, 3), nontrivial
 
 
@@ -221,7 +223,7 @@ def shape_cases(draw, tier):
     for _ in range(draw(st.integers(1, 8))):
         R, t = ops[draw(st.integers(0, len(ops) - 1))]
         sym = R @ np.array(sites[draw(st.integers(0, n_sites - 1))]) + t
-        d = np.array(dirs[draw(st.integers(0, 25))]) * radius * draw(st.sampled_from([0.0, 0.3, 0.9, 0.999, 1.001, 1.2]))
+        d = np.array(dirs[draw(st.integers(0, 25))]) * radius * draw(st.sampled_from([0.0, 0.3, 0.9, 0.999, 1.001, 1.2, 1 - 2e-8, 1 + 2e-8, 1 - 2.5e-9 / radius, 1 + 2.5e-9 / radius]))  # (the last two: 2.5e-9 A inside / outside the sphere)
         p = sym + d @ Minv
         positions.append((p - np.floor(p)).tolist())
     for _ in range(draw(st.integers(0, 4))):
@@ -248,7 +250,18 @@ def shape_cases(draw, tier):
 def long_shape_cases(draw, tier):
     c = draw(shape_cases(tier).filter(lambda c: c.get('via_trajectory') or c.get('supercell')))
     c['tile_to'] = c['frames'] = draw(st.sampled_from([2499, 2500, 2501, 3000, 4097, 5001] + ([10001] if tier == 'thorough' else [])))
+
     c['optimize'] = False
+    return c
+
+
+@st.composite
+def huge_shape_cases(draw, tier):
+    """a quarter of a million positions and more in one analysis (groups of order <= 4 only: the brute force stays affordable)"""
+    c = draw(shape_cases('thorough').filter(lambda c: (c.get('via_trajectory') or c.get('supercell')) and c['group'] <= 15 and len(ops_of(c['group'])[1]) <= 4))
+    c['tile_to'] = c['frames'] = draw(st.sampled_from([262143, 262145, 270001] + ([524289] if tier == 'thorough' else [])))
+    c['optimize'] = False
+    c['touch'] = False
     return c
 
 
@@ -322,6 +335,9 @@ SUBS = [
     Sub(name='long-trajectories', kind='hyp', shrink=False, run=run, strategy=long_shape_cases,
         rule='the trajectory / supercell-trajectory forms of the shapes systems with the generated positions visited cyclically over 2499 - 5001 (10 001) frames (one atom per frame): same clauses on runs longer than any internal block size',
         n={'quick': 2, 'thorough': 12}, shards={'quick': 4, 'thorough': 16}),
+    Sub(name='huge-position-sets', kind='hyp', shrink=False, run=run, strategy=huge_shape_cases,
+        rule='the trajectory / supercell-trajectory forms in space groups of order <= 4 with the generated positions visited cyclically over 262 143 - 270 001 (524 289) frames: same clauses on more than 2^18 positions in one analysis',
+        n={'quick': 1, 'thorough': 4}, shards={'quick': 3, 'thorough': 8}),
     Sub(name='from-structure', kind='hyp', run=run_from_structure, strategy=structure_cases,
         rule='analyser built with ShapeAnalyzer.from_structure from a full structure (22 groups, general position) whose origin is shifted by a generated vector; expected points from the structure\'s own symmetry operations (SpacegroupAnalyzer, as data) and the brute-force minimum-image oracle',
         n={'quick': 12, 'thorough': 300}, shards={'quick': 8, 'thorough': 16}),
